@@ -27,6 +27,7 @@ from predicate.truth_table import get_named_predicates, truth_table
 
 from .. import budget, cases, driver
 from ..core import Check
+from . import c15g
 
 EXE = dict(exe="driver_tt", src="DriverTT.lean")
 NEXT_BUDGET = 50_000  # line events per next(): two traversals and one evaluation of a tree of <= 13 nodes need < 1000
@@ -420,7 +421,7 @@ def names_and_rows(chk, rng, tier):
 
 def main(tier):
     chk = Check("C15", tier)
-    chk.prove(checker=(tier == "thorough"), exes=("driver_tt",))
+    chk.prove(modules=["PyPred.Props.C15", "PyPred.Props.C15G"], checker=(tier == "thorough"), exes=("driver_tt", "driver_gray"))
     rng = random.Random(chk.seed)
     stats = Counter()
     names_and_rows(chk, rng, tier)
@@ -448,8 +449,8 @@ def main(tier):
     chk.assumptions = [
         "NamedPredicate.name is not reassigned and trees are not rebuilt while a generator is live (the model's name table and trees are immutable)",
         "Python's str order and Lean's String order are the same relation (code-point lexicographic); exercised with mixed names, not proved about CPython",
-        "more_itertools.gray_product and sorted are exercised (rows request), not modelled",
     ]
+    c15g.stage(chk, tier, build=False)  # sorted(gray_product(..)) inside the model: Gray.combinations n = rows n (C15G_*), tied to more_itertools
     return chk.finish()
 
 
@@ -457,6 +458,8 @@ def replay(path):
     d = json.load(open(path))
     print(json.dumps({k: v for k, v in d.items() if k not in ("others",)}, indent=1)[:3000])
     case = d.get("input")
+    if d.get("kind") == "failing-input" and isinstance(case, dict) and case.get("stage") == "C15G":
+        return c15g.replay_case(case)
     if d.get("kind") != "failing-input" or not isinstance(case, dict) or "sched" not in case:
         return 1
     req, answers, heap, _b, _o, _w = run_real(case)
